@@ -2,7 +2,7 @@
 EXTENDS PolicyFiles, Json
 CONSTANTS Emit
 VARIABLE in
-Init == \E cfg \in [FileNames -> FileKinds] : \E op \in Ops : in = [cfg |-> cfg, op |-> op]
+Init == \E cfg \in [FileNames -> FileKinds] : \E op \in Ops : \E r \in (IF op \in {"NewOCI", "NewBlob"} THEN FileNames ELSE {"oci"}) : in = [cfg |-> cfg, op |-> op, rootIn |-> r]
 Next == FALSE /\ in' = in
 Spec == Init /\ [][Next]_in
 E == Expected(in.cfg, in.op)
@@ -14,5 +14,9 @@ Inv_ValidOnly == E.res = "verifier" => in.cfg[E.from] = "valid"
 Inv_Fallback == /\ (in.op \in {"LoadOCI", "NewOCI"} /\ in.cfg["oci"] # "absent") => \A k \in FileKinds : Expected([in.cfg EXCEPT !["legacy"] = k], in.op) = E
                 /\ (in.op \in {"LoadOCI", "NewOCI"}) => \A k \in FileKinds : Expected([in.cfg EXCEPT !["blob"] = k], in.op) = E
                 /\ (in.op \in {"LoadBlob", "NewBlob"}) => \A k \in FileKinds : \A f \in {"oci", "legacy"} : Expected([in.cfg EXCEPT ![f] = k], in.op) = E
+(* trust comes from the file the verifier was built from, and from no other *)
+Inv_Trust == Verified(in.cfg, in.op, in.rootIn) = "pass" => /\ in.cfg[in.rootIn] = "valid"
+                                                            /\ (in.op = "NewBlob" <=> in.rootIn = "blob")
+                                                            /\ (in.rootIn = "legacy" => in.cfg["oci"] = "absent")
 Inv_Emit == Emit => PrintT("CASE " \o ToJson([in |-> in, nt |-> (E.res \notin {"doc", "verifier"}) \/ in.cfg["oci"] = "absent"]))
 =============================================================================
